@@ -69,3 +69,23 @@ Print Assumptions C19_value_type_conforms.
 Theorem C19_subtyping_is_reflexive : forall t, sub t t = true.
 Proof. exact sub_refl. Qed.
 Print Assumptions C19_subtyping_is_reflexive.
+
+(* apply_binary_operation itself (shape checked against the source on every run): AnyType short-cuts and promotion of Literal
+   operand types before the table is consulted - the operator theorems hold whichever class the operands carry *)
+From Pedal Require Import model.C19_Apply proof.C19_Apply_Lemmas.
+
+Theorem C19_apply_on_any_representation :
+  forall op a b la rb, In op binops -> In la (reps a) -> In rb (reps b) -> apply_binop op (OClass la) (OClass rb) = RType (T op a b).
+Proof. exact apply_on_any_representation. Qed.
+Print Assumptions C19_apply_on_any_representation.
+
+Theorem C19_reports_when_cpython_raises_any_representation :
+  forall op a b la rb, In op binops -> In la (reps a) -> In rb (reps b) -> cpy_raises op a b = true ->
+    apply_binop op (OClass la) (OClass rb) = RType PImpossible.
+Proof. exact reports_when_cpython_raises_any_representation. Qed.
+Print Assumptions C19_reports_when_cpython_raises_any_representation.
+
+Theorem C19_unknown_operand_is_never_reported :
+  forall op x, apply_binop op OAny x = RSame x /\ (x <> OAny -> apply_binop op x OAny = RSame x).
+Proof. exact unknown_operand_is_never_reported. Qed.
+Print Assumptions C19_unknown_operand_is_never_reported.
